@@ -12,6 +12,7 @@ func init() {
 			RetType: "Res", Ok: ".ok %s", Err: ".invalid", StrAsLst: true,
 		})
 		s += "\n" + c13TwoPathFacts(repo)
+		s += "\n" + c13LocalFSFacts(repo)
 		s += "\nend Risor.Generated.C13\n"
 		return s
 	}})
